@@ -99,7 +99,7 @@ func c12TierB(c *Ctx, env *TBEnv, nruns int) {
 		timeout = 150 * time.Second
 	}
 	if stallKnown {
-		nruns, timeout = 1, 60*time.Second
+		nruns, timeout = 1, 30*time.Second
 		r.note("tier B reduced to one run: a stall was already found by the in-process monitors")
 	}
 	var specs []*TBSpec
